@@ -72,7 +72,7 @@ func NewFull(ctx context.Context, me *keys.PrivateKey, committee keys.PublicKeys
 	// the Server global state again, now with the real main chain client and main notary enabled
 	n.Srv = innerring.NewVerifServer(innerring.VerifServerPrm{
 		Log: log, Key: me, FSChain: n.Cli, Mainnet: f.Main.Cli, Netmap: n.Netmap,
-		AlphabetContracts: n.C.Alphabet, IndexerTimeout: 0, MainNotaryDisabled: false,
+		AlphabetContracts: n.C.Alphabet, IndexerTimeout: IndexerTimeout, MainNotaryDisabled: false,
 		EpochTimers: timers.NewTimers(timers.EpochTicks{}),
 	})
 	if f.Balance, err = balanceClient.NewFromMorph(n.Cli, n.C.Balance, balanceClient.AsAlphabet()); err != nil {
